@@ -62,3 +62,8 @@ package strategy
 //@   modifies *
 //@   loop 0 invariant predecessor_was_delivered: hasPrevKey ==> ghost_itCount >= 1
 //@   at_call fmt.Errorf#1 assert rejects_only_with_predecessor: ghost_itCount >= 2
+//@   after_call bytes.Compare#0 ghost loc_ordered := ite(ret0 < 0, 1, 0)
+//@   after_call strategy.cmpIntegerLittleEndian#0 ghost loc_ordered := ite(ret0 < 0, 1, 0)
+//@   at_call bytes.Compare#0 assert compares_previous_with_new: sameSlice(arg0, prevKey) && sameSlice(arg1, itKey)
+//@   at_call strategy.cmpIntegerLittleEndian#0 assert compares_previous_with_new: sameSlice(arg0, prevKey) && sameSlice(arg1, itKey)
+//@   at_call copy#0 assert accepted_keys_strictly_ascend: ghost_itCount >= 2 ==> ghost_loc_ordered == 1
